@@ -89,11 +89,43 @@ func init() {
 	register(&PropDef{
 		ID: "C07",
 		Gen: func(t *rapid.T, tier string) *world.Plan {
-			o := genOpts{maxCrashes: 2, maxFaults: 3, maxNet: 2, maxLN: 1, sched: true, healProb: 70, layouts: true, silence: true,
-				sites:      []string{"btc.rpc.height", "lbtc.rpc.height", "lwallet.open", "btcwallet.open", "btcwallet.label", "lwallet.label", "store.update", "net.send", "lwallet.sendraw", "btcwallet.spend", "ln.invoice"},
+			o := genOpts{maxCrashes: 2, maxFaults: 3, maxNet: 2, maxLN: 1, sched: true, healProb: 70, layouts: true, silence: true, csvBurst: 25,
+				sites:      []string{"btc.rpc.height", "lbtc.rpc.height", "lwallet.open", "btcwallet.open", "btcwallet.label", "lwallet.label", "store.update", "net.send", "lwallet.sendraw", "btcwallet.spend", "ln.invoice",
+					"btc.rpc.gettxout", "lbtc.rpc.gettxout", "btc.rpc.getrawtx", "lbtc.rpc.getrawtx", "btc.rpc.blockhash", "lbtc.rpc.blockhash", "electrum.history", "electrum.getrawtx"},
 				faultKinds: []string{"err", "errafter"}, inject: []string{"cancel", "coop"}, maxInject: 1}
 			if tier == "enum-base" {
 				o = genOpts{duration: []int{300}, healAlways: true, silence: true}
+			}
+			if tier != "enum-base" && rapid.IntRange(0, 3).Draw(t, "watch-outage") == 0 {
+				// focused: the chain back-end of a node is out of order while its swaps register
+				// their watches (right after the opening broadcast, on entering the CSV wait, on
+				// recovery); the peer goes silent; afterwards the node is left running, not restarted
+				o.silenceAlways = true
+				o.maxFaults = 1
+				o.healAlways = true
+				p := genPlan(t, o)
+				for i, k := 0, rapid.IntRange(1, 2).Draw(t, "nwo"); i < k; i++ {
+					from := pick(t, "wofrom", []int{1500, 2050, 2300, 4000, 20000})
+					p.Faults = append(p.Faults, world.Fault{Node: rapid.IntRange(0, 1).Draw(t, "wonode"),
+						Site:   pick(t, "wosite", []string{"btc.rpc.gettxout", "lbtc.rpc.gettxout", "btc.rpc.gettxout", "lbtc.rpc.gettxout", "btc.rpc.height", "lbtc.rpc.height", "btc.rpc.getrawtx", "lbtc.rpc.getrawtx", "electrum.history", "electrum.getrawtx"}),
+						Kind:   pick(t, "wokind", []string{"err", "err", "empty"}),
+						FromMs: from, ToMs: from + pick(t, "wolen", []int{1500, 6000, 30000, 120000})})
+				}
+				p.Heal.Restarts = pick(t, "worestarts", []int{0, 0, 0, 1})
+				p.Adv = nil
+				// the taker never pays and is not heard of again after the opening exists: its claim
+				// payments fail and its messages (coop_close) are lost
+				op := p.Ops[0]
+				taker, firstClaim := 1-op.Node, 1
+				if op.Kind == "swapout" {
+					taker, firstClaim = op.Node, 2 // attempt 1 is the fee payment
+				}
+				p.Silence = []world.SilenceAt{{Node: taker, After: 1}}
+				p.LN = nil
+				for i := firstClaim; i < firstClaim+12; i++ {
+					p.LN = append(p.LN, world.LNFault{Idx: i, Kind: "fail"})
+				}
+				return p
 			}
 			p := genPlan(t, o)
 			if tier != "enum-base" && rapid.Bool().Draw(t, "noinject") {
@@ -178,7 +210,7 @@ func init() {
 	register(&PropDef{
 		ID: "C22",
 		Gen: func(t *rapid.T, tier string) *world.Plan {
-			return genPlan(t, genOpts{sched: true, maxNet: 3, maxLN: 2, maxFaults: 2, silence: true, healProb: 40, inject: []string{"cancel", "coop"}, maxInject: 1,
+			return genPlan(t, genOpts{sched: true, maxNet: 3, maxLN: 2, maxFaults: 2, silence: true, healProb: 40, inject: []string{"cancel", "coop"}, maxInject: 1, csvBurst: 35,
 				sites: []string{"net.send", "ln.pay", "btcwallet.spend", "lwallet.sendraw"}})
 		},
 		Monitors:   world.MonitorsFor("C22"),
